@@ -275,6 +275,85 @@ func switchCases(fd *ast.FuncDecl) (cases []string, hasDefault bool) {
 	return
 }
 
+// lockFacts: for every method with receiver type `typ` in `files`: (method, lock discipline, writes shared state).
+// lock discipline is "Lock" / "RLock" when the body starts with `recv[.mu].Lock()` (or RLock) immediately
+// followed by `defer recv[.mu].Unlock()` (RUnlock), else "none".
+func lockFacts(files []*ast.File, typ string) string {
+	var rows []string
+	for _, f := range files {
+		for _, d := range f.Decls {
+			fd, ok := d.(*ast.FuncDecl)
+			if !ok || fd.Recv == nil || len(fd.Recv.List) == 0 || fd.Body == nil {
+				continue
+			}
+			if exprName(fd.Recv.List[0].Type) != typ {
+				continue
+			}
+			recv := ""
+			if len(fd.Recv.List[0].Names) > 0 {
+				recv = fd.Recv.List[0].Names[0].Name
+			}
+			lock := "none"
+			if len(fd.Body.List) >= 2 {
+				if es, ok := fd.Body.List[0].(*ast.ExprStmt); ok {
+					if ce, ok := es.X.(*ast.CallExpr); ok {
+						if se, ok := ce.Fun.(*ast.SelectorExpr); ok && (se.Sel.Name == "Lock" || se.Sel.Name == "RLock") && rootIdent(se.X) == recv {
+							if ds, ok := fd.Body.List[1].(*ast.DeferStmt); ok {
+								if se2, ok := ds.Call.Fun.(*ast.SelectorExpr); ok && rootIdent(se2.X) == recv {
+									if (se.Sel.Name == "Lock" && se2.Sel.Name == "Unlock") || (se.Sel.Name == "RLock" && se2.Sel.Name == "RUnlock") {
+										lock = se.Sel.Name
+									}
+								}
+							}
+						}
+					}
+				}
+			}
+			writes := false
+			ast.Inspect(fd.Body, func(n ast.Node) bool {
+				switch x := n.(type) {
+				case *ast.AssignStmt:
+					for _, l := range x.Lhs {
+						if rootIdent(l) == recv && recv != "" {
+							if _, isIdent := l.(*ast.Ident); !isIdent {
+								writes = true
+							}
+						}
+					}
+				case *ast.IncDecStmt:
+					if rootIdent(x.X) == recv {
+						writes = true
+					}
+				case *ast.CallExpr:
+					if id, ok := x.Fun.(*ast.Ident); ok && id.Name == "delete" && len(x.Args) > 0 && rootIdent(x.Args[0]) == recv {
+						writes = true
+					}
+				}
+				return true
+			})
+			rows = append(rows, fmt.Sprintf("(%q, %q, %v)", fd.Name.Name, lock, writes))
+		}
+	}
+	sort.Strings(rows)
+	return "[" + strings.Join(rows, ", ") + "]"
+}
+
+func rootIdent(e ast.Expr) string {
+	switch x := e.(type) {
+	case *ast.Ident:
+		return x.Name
+	case *ast.SelectorExpr:
+		return rootIdent(x.X)
+	case *ast.IndexExpr:
+		return rootIdent(x.X)
+	case *ast.StarExpr:
+		return rootIdent(x.X)
+	case *ast.ParenExpr:
+		return rootIdent(x.X)
+	}
+	return ""
+}
+
 func leanStrList(xs []string) string {
 	q := make([]string, len(xs))
 	for i, x := range xs {
@@ -349,6 +428,14 @@ func main() {
 		fmt.Fprintf(&sb, "def client_%sCases : List String := %s\n", fn, leanStrList(cases))
 		fmt.Fprintf(&sb, "def client_%sHasDefault : Bool := %v\n", fn, def)
 	}
+
+	_, filesUtil, _ := loadPkg(filepath.Join(repo, "util"))
+	_, filesTx, _ := loadPkg(filepath.Join(repo, "transactions"))
+	sb.WriteString("\n-- lock discipline: (method, \"Lock\"|\"RLock\"|\"none\", method writes receiver state)\n")
+	fmt.Fprintf(&sb, "def lockFacts_IDSequence : List (String × String × Bool) := %s\n", lockFacts(filesUtil, "IDSequence"))
+	fmt.Fprintf(&sb, "def lockFacts_TransactionStore : List (String × String × Bool) := %s\n", lockFacts(filesTx, "TransactionStore"))
+	fmt.Fprintf(&sb, "def lockFacts_TransactionBase : List (String × String × Bool) := %s\n", lockFacts(filesTx, "TransactionBase"))
+	fmt.Fprintf(&sb, "def lockFacts_RetryTransaction : List (String × String × Bool) := %s\n", lockFacts(filesTx, "RetryTransaction"))
 
 	sb.WriteString("\n/-- rewrites `c.toNat` to its literal for every extracted UInt8/UInt16 constant -/\n")
 	sb.WriteString("macro \"gen_norm\" : tactic => `(tactic| simp only [\n  " + strings.Join(toNatLemmas, ",\n  ") + "] at *)\n")
